@@ -10,6 +10,7 @@ import AfkakProofs.Producer.ReportedTrace
 import AfkakProofs.Producer.AfterStop
 import AfkakProofs.Producer.WireCompose
 import AfkakProofs.Producer.WireBytes
+import AfkakProofs.Producer.WireBytesEmitted
 import AfkakProofs.Producer.Compose2
 import AfkakProofs.Producer.Compose3
 import AfkakProofs.Producer.Compose4
@@ -286,7 +287,44 @@ theorem C01_request_bytes_decode (ext : Afkak.Wire.Ext) (body : Nat → List UIn
           ∃ p ∈ payloads, t = tn p.tp.topic ∧ q = (p.tp.part, p.msgs.map (WireBytes.brokerEntry ext.nowMs body magic))) :=
   WireBytes.request_bytes_decode ext body magic tn payloads cid corr acks timeout ver v hv hnd hascii hvalid
 
-/-! Non-vacuity of the three theorems above: a concrete payload (two sends, a null message, an empty value, a null
+/-- … WITHOUT ANY SIZE CONDITION (`AfkakProofs/Producer/WireBytesEmitted.lean`: whatever `_encode_message_set` writes
+    is inside the grammar - a message set it returns bytes for is grammar-valid, the converse of the wire package's
+    `msgset_total`).  For EVERY payload `p` made of the sends `rs`, all externals, every `body`, format
+    `magic ∈ {0, 1}`, no compression: `create_message_set` returns a message set `ms`, and WHENEVER
+    `_encode_message_set(ms, magic=magic)` returns bytes (otherwise it raises `struct.error`: a size or the clock does
+    not fit its field - and nothing is sent), those bytes parse under the grammar's message-set decoder to exactly one
+    entry per message of the payload, in order, with the message's key and value bytes.  The encoder never writes
+    bytes that a broker would read as other messages, fewer, more, or in another order. -/
+theorem C01_payload_bytes_decode_emitted (ext : Afkak.Wire.Ext) (body : Nat → List UInt8) (magic : Int)
+    (hm : magic = 0 ∨ magic = 1) (rs : List Req) (p : Payload) (hp : p.msgs = rs.flatMap (·.wire)) :
+    ∃ ms, Afkak.Wire.createMessageSet ext (rs.map (WireCompose.sendArg body)) Afkak.Consts.codecNone magic = .ok ms
+      ∧ ∀ bytes, Afkak.Wire.encodeMessageSet ext ms none magic = .ok bytes →
+        ∃ entries, (Afkak.Wire.Spec.messageSet ext.crc).dec bytes = some entries
+          ∧ entries = p.msgs.map (WireBytes.brokerEntry ext.nowMs body magic)
+          ∧ entries.map (fun e => (e.2.key, e.2.value)) = p.msgs.map (WireBytes.kv body) :=
+  WireBytes.payload_bytes_decode_emitted ext body magic hm rs p hp
+
+/-- … and with gzip, without any size condition: WHENEVER `create_message_set(reqs, CODEC_GZIP, magic)` returns `ms`
+    for the sends of a payload `p` (so the inner `_encode_message_set` and the compressor returned) and the
+    decompressor undoes the compressor (`hinv`; both are externals of the model): `ms` is one wrapper whose value
+    `gz` decompresses to bytes that parse under the grammar to exactly one entry per message of the payload, in
+    order, key and value kept; and WHENEVER `_encode_message_set(ms, magic=magic)` returns bytes, they parse under
+    the grammar to that one wrapper entry (offset 0, format `magic`, gzip codec, null key, value `gz`). -/
+theorem C01_payload_bytes_decode_gzip_emitted (ext : Afkak.Wire.Ext) (body : Nat → List UInt8) (magic : Int)
+    (hm : magic = 0 ∨ magic = 1) (rs : List Req) (p : Payload) (hp : p.msgs = rs.flatMap (·.wire))
+    (ms : List Afkak.Wire.Message)
+    (h : Afkak.Wire.createMessageSet ext (rs.map (WireCompose.sendArg body)) Afkak.Consts.codecGzip magic = .ok ms)
+    (hinv : ∀ b z, ext.gzip b = .ok z → ext.gunzip (some z) = .ok b) :
+    ∃ gz inner entries,
+      ext.gunzip (some gz) = .ok inner
+      ∧ (Afkak.Wire.Spec.messageSet ext.crc).dec inner = some entries
+      ∧ entries = p.msgs.map (WireBytes.brokerEntry ext.nowMs body magic)
+      ∧ entries.map (fun e => (e.2.key, e.2.value)) = p.msgs.map (WireBytes.kv body)
+      ∧ (∀ bytes, Afkak.Wire.encodeMessageSet ext ms none magic = .ok bytes →
+            (Afkak.Wire.Spec.messageSet ext.crc).dec bytes = some [WireBytes.wrapperEntry ext.nowMs magic gz]) :=
+  WireBytes.payload_bytes_decode_gzip_emitted ext body magic hm rs p hp ms h hinv
+
+/-! Non-vacuity of the theorems above: a concrete payload (two sends, a null message, an empty value, a null
 key), concrete externals and a two-payload request meet every hypothesis (`AfkakProofs/Producer/WireBytes.lean`,
 "non-vacuity", checked by `decide`); here the theorems are applied to them. -/
 example := C01_payload_bytes_decode WireBytes.exExt WireBytes.exBody 1 (Or.inr rfl) WireBytes.exRs WireBytes.exP
@@ -295,6 +333,11 @@ example := C01_payload_bytes_decode_gzip WireBytes.exExt WireBytes.exBody 1 (Or.
   (by decide) _ rfl (by intro b z h; cases h; rfl) (by decide +kernel)
 example := C01_request_bytes_decode WireBytes.exExt WireBytes.exBody 1 WireBytes.exTn [WireBytes.exP, WireBytes.exP2]
   [99] 5 (-1) 1000 8 2 (by decide) (by decide) (by decide) (by decide +kernel)
+/-- the encoder does return bytes on that payload (the `∀ bytes` of the `_emitted` theorems is not empty) -/
+example : ∃ bytes, Afkak.Wire.encodeMessageSet WireBytes.exExt
+    (WireBytes.exP.msgs.map (WireCompose.wireMsg WireBytes.exExt WireBytes.exBody 1)) none 1 = .ok bytes := ⟨_, rfl⟩
+example : ∃ ms bytes, Afkak.Wire.createMessageSet WireBytes.exExt (WireBytes.exRs.map (WireCompose.sendArg WireBytes.exBody))
+    Afkak.Consts.codecGzip 1 = .ok ms ∧ Afkak.Wire.encodeMessageSet WireBytes.exExt ms none 1 = .ok bytes := ⟨_, _, rfl, rfl⟩
 
 /-! Non-vacuity: a run in which Deferreds do fire (an acknowledged send, a cancelled one). -/
 def exCfg : Cfg := Cfg.ofArgs 1 3 (1/4) false 1 1 none false
@@ -519,6 +562,8 @@ C01_payload_is_message_set_gzip
 C01_payload_bytes_decode
 C01_payload_bytes_decode_gzip
 C01_request_bytes_decode
+C01_payload_bytes_decode_emitted
+C01_payload_bytes_decode_gzip_emitted
 C01_batch_resolves_within
 C01_composed_is_producer_run
 C01_composed_success_only_if_leader_acked
